@@ -57,4 +57,7 @@ class FileStorage(object):
 
     # Method returning a map
     def map(self):
+        # The map reads the file itself: buffered writes must reach it first
+        self.file.flush()
+
         return MemMapStorage(self.block_size, self.file)
